@@ -212,6 +212,11 @@ def fault_case(case, part):
     part.outcome("fault:" + outcome)
     if kind == "flip" and not must_fail and outcome == "rows":
         return  # the damage sits where the reader does not look
+    if kind == "flip" and outcome == "rows" and readermachine.archive_still_readable(path):
+        # the inverted byte holds only the unused bits behind the end of the compressed stream: every member still reads completely
+        # with a matching checksum, so nothing a reader sees has changed
+        part.note("inverted bytes that left the archive fully readable (not judged)")
+        return
     if outcome != "DataFormatError":
         what = case.get("text", "") or case.get("what", "")
         part.fail("fault:%s%s|%s" % (kind, (":" + what) if what else "", "read-without-error" if outcome == "rows" else outcome), case, "DataFormatError", detail)
